@@ -52,11 +52,12 @@ try:
         shutil.copyfile(d, os.path.join(WT, dest))
         placed.append(dest)
         ddir = os.path.dirname(dest)
+        tags = "-tags verif " if "-tags verif" in note else ""
         if base == "main.go":
-            run = "timeout 900 go run ./%s" % ddir
+            run = "timeout 900 go run %s./%s" % (tags, ddir)
         else:
             t = re.search(r"-run '?(\w+)'?", note)
-            run = "timeout 900 go test -count=1 %s ./%s/" % (("-run " + t.group(1)) if t else "", ddir)
+            run = "timeout 900 go test %s-count=1 %s ./%s/" % (tags, ("-run " + t.group(1)) if t else "", ddir)
     res["demo_placed"], res["demo_cmd"] = placed, run
     rc0, o0 = sh(run)
     res["demo_without_change"] = "pass" if rc0 == 0 else "FAIL rc=%d: %s" % (rc0, o0[-300:])
@@ -68,14 +69,14 @@ try:
         raise SystemExit(0)
     touched = sorted({os.path.dirname(l[6:].strip()) for l in open(patch) if l.startswith("+++ b/")})
     res["touched"] = touched
-    rc, o = sh("go build ./... && go build -tags verif ./pkg/...", timeout=1200)
-    res["builds"] = rc == 0
-    tests = {}
-    # the demonstration must not run as part of the existing tests
+    # the demonstration is not part of the tree that must build, nor of the existing tests
     stash = {}
     for d in placed:
         stash[d] = open(os.path.join(WT, d)).read()
         os.remove(os.path.join(WT, d))
+    rc, o = sh("go build ./... && go build -tags verif ./pkg/...", timeout=1200)
+    res["builds"] = rc == 0
+    tests = {}
     for t in touched:
         if t in RUNNABLE:
             sel = "-run 'TestNewWAL1|TestWAL_Add|TestWAL_ListEntries'" if t == "pkg/wal" else ""  # TestWAL_GetToken needs the network (fails on the unchanged tree too)
